@@ -105,7 +105,8 @@ def gen_case(rng, quick):
     atol = rng.choice([1e-12, 1e-12, 1e-12, 1e-8, 1e-3, 2.0])
     return dict(X=X, w=w, Y=Y, wkind=wkind, family=fam, exact=False,
                 with_mean=rng.random() < 0.6, with_std=rng.random() < 0.75,
-                column_wise=rng.random() < 0.5, rtol=rtol, atol=atol)
+                column_wise=rng.random() < 0.5, rtol=rtol, atol=atol,
+                copy=rng.random() < 0.3, as_int=(fam == "integer" and rng.random() < 0.5))
 
 
 def gen_exact_case(rng):
@@ -122,14 +123,16 @@ def gen_exact_case(rng):
     Y = [[float(rng.randint(-8, 8)) for _ in range(d)] for _ in range(rng.randint(1, 3))]
     return dict(X=X, w=w, Y=Y, wkind=wkind, family="exact", exact=True,
                 with_mean=rng.random() < 0.6, with_std=rng.random() < 0.8,
-                column_wise=rng.random() < 0.5, rtol=0, atol=1e-12)
+                column_wise=rng.random() < 0.5, rtol=0, atol=1e-12,
+                copy=rng.random() < 0.3, as_int=rng.random() < 0.5)
 
 
 # ------------------------------------------------------------------------------ implementation
 def make(case):
     from skmatter.preprocessing import StandardFlexibleScaler
     return StandardFlexibleScaler(with_mean=case["with_mean"], with_std=case["with_std"],
-                                  column_wise=case["column_wise"], rtol=case["rtol"], atol=case["atol"])
+                                  column_wise=case["column_wise"], rtol=case["rtol"], atol=case["atol"],
+                                  copy=bool(case.get("copy", False)))
 
 
 def run_impl(case, X=None, w="case"):
@@ -137,19 +140,58 @@ def run_impl(case, X=None, w="case"):
     w = case["w"] if isinstance(w, str) else w
     d = X.shape[1]
     sc = make(case)
+    # integer-valued data may be handed over with an integer dtype (conversion path of
+    # _validate_data); the values are the same
+    Xin = X.astype(np.int64) if case.get("as_int") and np.all(X == np.rint(X)) else X.copy()
+    Xin0 = Xin.copy()
+    win = None if w is None else np.array(w, dtype=float)
+    win0 = None if win is None else win.copy()
     try:
-        sc.fit(X.copy(), sample_weight=None if w is None else np.array(w, dtype=float))
+        ret = sc.fit(Xin, sample_weight=win)
     except ValueError as e:
         return dict(raised=True, msg=str(e))
     Y = np.array(case["Y"], dtype=float)
-    TX = sc.transform(X.copy())
-    TY = sc.transform(Y.copy())
-    IY = sc.inverse_transform(TY.copy())
+    Yin, Xin2 = Y.copy(), X.copy()
+    TX = sc.transform(Xin2)
+    TY = sc.transform(Yin)
+    TYin = TY.copy()
+    IY = sc.inverse_transform(TYin)
+    # fit never writes to its arguments; transform may work in place only when copy=False
+    watch = [("fit X", Xin, Xin0), ("fit sample_weight", win, win0)]
+    if case.get("copy", False):
+        watch += [("transform X (copy=True)", Xin2, X), ("transform Y (copy=True)", Yin, Y)]
+    mutated = [nm for nm, a, b in watch if a is not None and not np.array_equal(a, b)]
     return dict(raised=False,
                 mean=[float(x) for x in np.broadcast_to(sc.mean_, (d,))],
                 scale=[float(x) for x in np.broadcast_to(sc.scale_, (d,))],
                 scale_is_scalar=bool(np.ndim(sc.scale_) == 0),
+                mean_shape=list(np.shape(sc.mean_)), n_in=int(sc.n_samples_in_), d_in=int(sc.n_features_in_),
+                fit_returns_self=bool(ret is sc), mutated=mutated,
+                out_shapes=[list(TX.shape), list(TY.shape), list(IY.shape)],
                 TX=TX.tolist(), TY=TY.tolist(), IY=IY.tolist())
+
+
+def structural(case, rec):
+    """shape bookkeeping of one fresh fit, as the object model (Model/ScalerObj.v [sof_fit]) has
+    it: n_samples_in_ = n, n_features_in_ = d, mean_ of shape (d,), scale_ an array iff with_std
+    and column_wise, fit returns self, the inputs are never written to.  None or a message."""
+    if rec["raised"]:
+        return None
+    n, d, k = len(case["X"]), len(case["X"][0]), len(case["Y"])
+    if (rec["n_in"], rec["d_in"]) != (n, d):
+        return "n_samples_in_/n_features_in_ = %r, data is %r" % ((rec["n_in"], rec["d_in"]), (n, d))
+    if rec["mean_shape"] != [d]:
+        return "mean_ has shape %r, expected (%d,)" % (rec["mean_shape"], d)
+    if rec["scale_is_scalar"] != (not (case["with_std"] and case["column_wise"])):
+        return "scale_ is %s for with_std=%r column_wise=%r" % (
+            "a scalar" if rec["scale_is_scalar"] else "an array", case["with_std"], case["column_wise"])
+    if rec["out_shapes"] != [[n, d], [k, d], [k, d]]:
+        return "transform / inverse_transform return shapes %r" % (rec["out_shapes"],)
+    if not rec["fit_returns_self"]:
+        return "fit does not return self"
+    if rec["mutated"]:
+        return "the call overwrote its input: " + ", ".join(rec["mutated"])
+    return None
 
 
 # ------------------------------------------------------------------------------ reference (search only)
@@ -236,6 +278,9 @@ def oracle(case, rec):
     return relational(case, rec)
 
 
+REL = dict(zero_weight_rows=0, weight_scale=0, idempotent=0, shift=0, rescale=0)
+
+
 def relational(case, rec):
     """parts of the property that relate two fits (implementation side, always run)"""
     if rec["raised"]:
@@ -267,18 +312,64 @@ def relational(case, rec):
         c = colmax * np.array([(-1) ** j * (1 + j) for j in range(d)]) * [0.5, 3.0, 40.0][h]
         c2 = dict(case, X=(X + c).tolist(), Y=(Y + c).tolist())
         r2 = run_impl(c2)
+        REL["shift"] += 1
         if not r2["raised"]:
             bound = 1e-8 * (1 + np.max(np.abs(rec["TY"]), axis=0) + (colmax + np.abs(c) + np.max(np.abs(Y), axis=0)) / np.abs(s))
             if np.any(np.abs(np.array(r2["TY"]) - rec["TY"]) > bound):
                 return "transform changes under a prior shift of the input by %s" % c.tolist()
+        elif case["rtol"] == 0 and not guard_margin(case)[1] and not guard_margin(c2)[1] and not guard_margin(c2)[0]:
+            # C11_shift_accepted: with rtol = 0 the guard is shift invariant
+            return "fit rejects the data shifted by %s although it accepts the original (rtol = 0)" % c.tolist()
     if case["with_std"] and h in (3, 4, 5):
         a = [-1.0, 0.125, -37.5][h - 3]
         c2 = dict(case, X=(a * X).tolist(), Y=(a * Y).tolist())
         r2 = run_impl(c2)
+        REL["rescale"] += 1
         if not r2["raised"]:
             bound = 1e-8 * (1 + np.max(np.abs(rec["TY"]), axis=0) + (colmax + np.max(np.abs(Y), axis=0)) / np.abs(s))
             if np.any(np.abs(np.array(r2["TY"]) - math.copysign(1.0, a) * np.array(rec["TY"])) > bound):
                 return "transform of data rescaled by %r is not sign(%r) times the original transform" % (a, a)
+        elif abs(a) >= 1 and not guard_margin(case)[1] and not guard_margin(c2)[1] and not guard_margin(c2)[0]:
+            # C11_rescale_accepted: blowing the data up never turns accepted into rejected
+            return "fit rejects the data rescaled by %r although it accepts the original" % a
+    # rows of weight zero are ignored (C11_zero_weight_rows_ignored): overwrite them
+    if case["w"] is not None and any(x == 0 for x in case["w"]):
+        X2 = X.copy()
+        for i, wi in enumerate(case["w"]):
+            if wi == 0:
+                X2[i] = colmax * [(-1) ** (i + j) * (1.5 + j) for j in range(d)] + 0.25
+        r2 = run_impl(case, X=X2.tolist())
+        REL["zero_weight_rows"] += 1
+        if r2["raised"]:
+            return "fit raises after rows of sample weight 0 were overwritten"
+        # zero-weight rows contribute exact zeros to every sum: equal up to the sign of zero
+        tiny = 1e-13
+        if np.any(np.abs(np.array(r2["mean"]) - rec["mean"]) > tiny * colmax) or \
+           np.any(np.abs(np.array(r2["scale"]) - s) > tiny * np.abs(s)):
+            return "mean_/scale_ depend on rows whose sample weight is 0"
+    # only the ratios of the weights matter (C11_weight_scale_invariant)
+    if case["w"] is not None:
+        a = [2.0, 0.5, 3.0, 0.1, 1e3, 7.0, 0.3][h]
+        r2 = run_impl(case, w=[a * x for x in case["w"]])
+        REL["weight_scale"] += 1
+        if r2["raised"]:
+            if not guard_margin(case)[1]:
+                return "fit raises after all sample weights were multiplied by %r" % a
+        elif np.any(np.abs(np.array(r2["mean"]) - rec["mean"]) > 1e-9 * colmax) or \
+                np.any(np.abs(np.array(r2["scale"]) - s) > 1e-8 * np.abs(s) * (1 + 1e-6 * np.max(colmax / np.abs(s)))):
+            return "mean_/scale_ change when all sample weights are multiplied by %r" % a
+    # standardising twice = standardising once (C11_idempotent)
+    if case["with_mean"] and case["with_std"] and case["atol"] <= 0.5 and h in (1, 4, 6):
+        cond = float(np.max(colmax / np.abs(s)))
+        if cond < 1e6:
+            r2 = run_impl(case, X=rec["TX"])
+            REL["idempotent"] += 1
+            if r2["raised"]:
+                return "fit rejects the standardised training data"
+            if np.any(np.abs(np.array(r2["mean"])) > 1e-9 * (1 + cond)):
+                return "refit on the standardised training data has mean_ %r, not 0" % (r2["mean"],)
+            if np.any(np.abs(np.array(r2["scale"]) - 1) > 1e-7 * (1 + cond * 1e-3)):
+                return "refit on the standardised training data has scale_ %r, not 1" % (r2["scale"],)
     # unweighted column-wise mode == sklearn StandardScaler
     if case["w"] is None and case["column_wise"] and case["with_std"] and case["with_mean"]:
         from sklearn.preprocessing import StandardScaler
@@ -293,6 +384,208 @@ def relational(case, rec):
             if np.any(np.abs(TY - rec["TY"]) > 1e-7 * (1 + np.max(np.abs(TY), axis=0) + colmax / np.abs(s))):
                 return "transform differs from sklearn StandardScaler"
     return None
+
+
+# ------------------------------------------------------------------------------ object traces
+# Sequences of set_params / fit / transform / inverse_transform calls on ONE estimator object,
+# compared call by call (outcome and every fitted attribute after the call) with the state
+# machine of coq/Model/ScalerObj.v.
+def gen_par(rng):
+    return dict(with_mean=rng.random() < 0.6, with_std=rng.random() < 0.75, column_wise=rng.random() < 0.5,
+                rtol=rng.choice([0, 0, 1e-6, 1e-3, 0.25]), atol=rng.choice([1e-12, 1e-12, 1e-8, 1e-3, 2.0]))
+
+
+def gen_trace(rng, quick):
+    nmax, dmax = (6, 3) if quick else (10, 4)
+    par0 = gen_par(rng)
+    ops, width = [], None
+    nops = rng.randint(3, 7 if quick else 10)
+    for t in range(nops):
+        r = rng.random()
+        if t == 0 and r < 0.75:
+            r = 0.3                                  # mostly start with a fit (else: NotFittedError path)
+        if r < 0.15:
+            ops.append(dict(op="set", par=gen_par(rng)))
+        elif r < 0.50:
+            n = 1 if rng.random() < 0.08 else rng.randint(2, nmax)
+            d = width if (width and rng.random() < 0.5) else rng.randint(1, dmax)
+            fam = rng.choice(FAMILIES + ["const_col"])
+            X = gen_X(rng, n, d, fam)
+            wkind = rng.choice(WKINDS)
+            ops.append(dict(op="fit", X=X, w=gen_w(rng, n, wkind), wkind=wkind, family=fam,
+                            Yprobe=[[rng.gauss(0, 3) for _ in range(d)] for _ in range(2)]))
+            if n >= 2:
+                width = d
+        else:
+            k = rng.randint(1, 4)
+            c = width if (width and rng.random() < 0.8) else rng.randint(1, dmax + 1)
+            M = [[rng.gauss(0, 1) * 10 ** rng.uniform(-2, 2) for _ in range(c)] for _ in range(k)]
+            ops.append(dict(op="transform" if r < 0.8 else "inverse", M=M))
+    return dict(par0=par0, ops=ops)
+
+
+def obj_obs(sc):
+    fitted = hasattr(sc, "mean_") and hasattr(sc, "scale_")
+    d = int(getattr(sc, "n_features_in_", 0))
+    ob = dict(fitted=bool(fitted), n=int(getattr(sc, "n_samples_in_", 0)), d=d, arr=False, mean=[], scale=[])
+    if fitted:
+        ob["arr"] = bool(np.ndim(sc.scale_) == 1)
+        for nm, a in (("mean", sc.mean_), ("scale", sc.scale_)):
+            try:
+                ob[nm] = [float(x) for x in np.broadcast_to(a, (d,))]
+            except ValueError:                       # an attribute of the wrong width (stale state): keep it as it is,
+                ob[nm] = [float(x) for x in np.ravel(a)]   # the comparison inside Coq fails on the shape
+    return ob
+
+
+def run_trace_impl(trace):
+    """returns the list of observations (one per call); for every fit with >= 2 rows also a
+    side-effect free probe (transform(X), transform(Yprobe), inverse) used by the oracle"""
+    from skmatter.preprocessing import StandardFlexibleScaler
+    from sklearn.exceptions import NotFittedError
+    sc = StandardFlexibleScaler(**trace["par0"])
+    par = dict(trace["par0"])
+    obs = []
+    for op in trace["ops"]:
+        kind, mat, probe = 0, [], None
+        try:
+            if op["op"] == "set":
+                sc.set_params(**op["par"])
+                par = dict(op["par"])
+            elif op["op"] == "fit":
+                X = np.array(op["X"], dtype=float)
+                w = None if op["w"] is None else np.array(op["w"], dtype=float)
+                case = dict(par, X=op["X"], w=op["w"], Y=op["Yprobe"], wkind=op["wkind"])
+                try:
+                    sc.fit(X.copy(), sample_weight=w)
+                except ValueError as e:
+                    probe = dict(case=case, rec=dict(raised=True, msg=str(e)))
+                    raise
+                try:
+                    Y = np.array(op["Yprobe"], dtype=float)
+                    TY = sc.transform(Y.copy())
+                    d = X.shape[1]
+                    probe = dict(case=case, rec=dict(
+                        raised=False, mean=[float(x) for x in np.broadcast_to(sc.mean_, (d,))],
+                        scale=[float(x) for x in np.broadcast_to(sc.scale_, (d,))],
+                        TX=sc.transform(X.copy()).tolist(), TY=TY.tolist(),
+                        IY=sc.inverse_transform(TY.copy()).tolist()))
+                except Exception as e:               # accepted fit, but the fitted object is unusable
+                    probe = dict(case=case, rec=dict(raised=False, broken="%s: %s" % (type(e).__name__, e)))
+            else:
+                M = np.array(op["M"], dtype=float)
+                out = sc.transform(M.copy()) if op["op"] == "transform" else sc.inverse_transform(M.copy())
+                kind, mat = 3, np.asarray(out, dtype=float).tolist()
+        except NotFittedError:
+            kind = 2
+        except ValueError:
+            kind = 1
+        ob = obj_obs(sc)
+        ob.update(kind=kind, mat=mat)
+        if probe is not None:
+            ob["probe"] = probe
+        obs.append(ob)
+    return obs
+
+
+def trace_gated(trace, obs):
+    """a guard decision of some fit is within rounding noise of its threshold, or the data is
+    outside what the comparison covers (non-finite results)"""
+    for op, ob in zip(trace["ops"], obs):
+        if "probe" in ob and guard_margin(ob["probe"]["case"])[1]:
+            return True
+        if not np.all(np.isfinite(np.array(ob["mean"] + ob["scale"], dtype=float))):
+            return True
+    return False
+
+
+def par_coq(p):
+    return "(SofPar %s %s %s %s %s)" % ("true" if p["with_mean"] else "false", "true" if p["with_std"] else "false",
+                                        "true" if p["column_wise"] else "false", C.fl(p["rtol"]), C.fl(p["atol"]))
+
+
+def trace_coq(trace, obs, fn="sof_trace_ok"):
+    items = []
+    for op, ob in zip(trace["ops"], obs):
+        if op["op"] == "set":
+            o = "FSet %s" % par_coq(op["par"])
+        elif op["op"] == "fit":
+            X = op["X"]
+            o = "FFit %d %d %s %s %s" % (len(X), len(X[0]), C.fmat(X), "false" if op["w"] is None else "true",
+                                         "[]" if op["w"] is None else col(op["w"]))
+        else:
+            M = op["M"]
+            o = "%s %d %d %s" % ("FTransform" if op["op"] == "transform" else "FInverse", len(M), len(M[0]), C.fmat(M))
+        b = "SofObs %d %s %s %d %d %s %s %s" % (
+            ob["kind"], C.fmat(ob["mat"]), "true" if ob["fitted"] else "false", ob["n"], ob["d"],
+            "true" if ob["arr"] else "false", C.fmat([ob["mean"]]) if ob["fitted"] else "[]",
+            C.fmat([ob["scale"]]) if ob["fitted"] else "[]")
+        items.append("(%s, %s)" % (o, b))
+    return "%s %s %s [%s]" % (fn, C.fl(TOL), par_coq(trace["par0"]), "; ".join(items))
+
+
+THEAD = (C.SHARD_HEAD + "From Coq Require Import List PrimFloat.\nImport ListNotations.\n"
+         "From Verif Require Import ListX MExp Scaler ScalerObj.\nOpen Scope float_scope.\n")
+
+
+def tshard(items):
+    return THEAD + "Definition verdicts : list bool := [\n %s].\nEval vm_compute in (failing verdicts).\n" % ";\n ".join(items)
+
+
+def trace_diag(ctx, trace, obs):
+    import re
+    txt = THEAD + "Eval vm_compute in (%s).\n" % trace_coq(trace, obs, "sof_trace_diag")
+    (rc, out), = C.run_shards(ctx.prop + "t", [txt])
+    mm = re.search(r"=\s*\[(.*?)\]\s*:\s*list bool", out.replace("\n", " "))
+    if not mm:
+        return "diagnosis unavailable"
+    vals = [x.strip() == "true" for x in mm.group(1).split(";")]
+    bad = [i for i, v in enumerate(vals) if not v]
+    return "first differing call: #%d (%s)" % (bad[0], trace["ops"][bad[0]]["op"]) if bad else "no call differs"
+
+
+def trace_oracle(trace, obs):
+    """Direct statements on the implementation's behaviour over the trace (search only)."""
+    state = None                                      # (case, rec) of the last fit with >= 2 rows
+    for i, (op, ob) in enumerate(zip(trace["ops"], obs)):
+        if op["op"] == "fit" and len(op["X"]) < 2 and ob["kind"] != 1:
+            return "call #%d: fit on fewer than 2 samples does not raise ValueError" % i
+        if "probe" in ob and ob["probe"]["rec"].get("broken"):
+            return "call #%d: after an accepted fit, transform of data of the fitted width fails (%s)" % (i, ob["probe"]["rec"]["broken"])
+        if "probe" in ob and len(op["X"]) >= 2:
+            msg = oracle(ob["probe"]["case"], ob["probe"]["rec"])
+            if msg:
+                return "call #%d (fit on a used estimator): %s" % (i, msg)
+            state = ob["probe"]
+        if op["op"] in ("transform", "inverse"):
+            M = np.array(op["M"], dtype=float)
+            if state is None:
+                if ob["kind"] != 2:
+                    return "call #%d: %s on an estimator that was never fitted does not raise NotFittedError" % (i, op["op"])
+                continue
+            d = len(state["case"]["X"][0])
+            if M.shape[1] != d:
+                if ob["kind"] != 1:
+                    return "call #%d: data of width %d accepted by an estimator fitted on width %d" % (i, M.shape[1], d)
+                continue
+            if state["rec"]["raised"]:
+                continue                              # state after a rejected fit: not part of the property
+            if ob["kind"] != 3:
+                return "call #%d: %s raised on data of the fitted width" % (i, op["op"])
+            m, v = stats_ref(state["case"])
+            c = state["case"]
+            mean_ref = m if c["with_mean"] else np.zeros(d)
+            sref = (np.sqrt(v) if c["column_wise"] else np.sqrt(v.sum()) * np.ones(d)) if c["with_std"] else np.ones(d)
+            colmax = np.max(np.abs(np.array(c["X"], dtype=float)), axis=0)
+            Ml = np.array(M, dtype=np.longdouble)
+            ref = (Ml - mean_ref) / sref if op["op"] == "transform" else Ml * sref + mean_ref
+            mag = (colmax + np.max(np.abs(M), axis=0)) / sref if op["op"] == "transform" else colmax + np.max(np.abs(M), axis=0) * sref
+            cond = float(np.max(colmax / sref))
+            if np.any(np.abs(np.array(ob["mat"]) - ref) > 1e-8 * (1 + 1e-6 * cond) * (np.max(np.abs(ref), axis=0) + mag)):
+                return ("call #%d: %s does not use the weighted mean / standard deviation of the data of the "
+                        "most recent fit (stale or mixed state)" % (i, op["op"]))
+    return None
+
 
 
 # ------------------------------------------------------------------------------ Coq side
@@ -352,7 +645,81 @@ def diag(ctx, case, rec):
 
 
 # ------------------------------------------------------------------------------ run
+
+def run_traces(ctx, po):
+    ntr = 600 if ctx.quick else 4000
+    traces, obss = [], []
+    st = dict(traces=0, calls=0, gated=0, kinds={}, rejected_refits=0, refits=0, width_changes=0,
+              param_changes_between_fits=0, mismatched=0, failing_inputs=0)
+    for _ in range(ntr):
+        tr = gen_trace(ctx.rng, ctx.quick)
+        ob = run_trace_impl(tr)
+        if trace_gated(tr, ob):
+            st["gated"] += 1
+            continue
+        traces.append(tr)
+        obss.append(ob)
+        nfit, lastd, seen_set = 0, None, False
+        for op, o in zip(tr["ops"], ob):
+            key = "%s:%s" % (op["op"], ["self", "ValueError", "NotFittedError", "matrix"][o["kind"]])
+            st["kinds"][key] = st["kinds"].get(key, 0) + 1
+            st["calls"] += 1
+            if op["op"] == "set":
+                seen_set = nfit > 0
+            if op["op"] == "fit" and len(op["X"]) >= 2:
+                st["refits"] += nfit > 0
+                st["rejected_refits"] += (nfit > 0 and o["kind"] == 1)
+                st["width_changes"] += (lastd is not None and lastd != len(op["X"][0]))
+                st["param_changes_between_fits"] += seen_set
+                nfit, lastd, seen_set = nfit + 1, len(op["X"][0]), False
+    st["traces"] = len(traces)
+    groups, shards, cur_g, cur_items, size = [], [], [], [], 0
+    for i in range(len(traces)):
+        item = trace_coq(traces[i], obss[i])
+        if cur_g and (size + len(item) > 250000 or len(cur_g) >= 300):
+            groups.append(cur_g)
+            shards.append(tshard(cur_items))
+            cur_g, cur_items, size = [], [], 0
+        cur_g.append(i)
+        cur_items.append(item)
+        size += len(item)
+    if cur_g:
+        groups.append(cur_g)
+        shards.append(tshard(cur_items))
+    bad = []
+    for g, (rc, out) in zip(groups, C.run_shards(ctx.prop + "o", shards)):
+        lists = C.parse_nat_lists(out)
+        if rc != 0 or len(lists) != 1:
+            C.report_violation(ctx, "object-trace correspondence shard did not evaluate", dict(coq_output=out[-1500:]), found_input=False)
+            continue
+        bad += [g[k] for k in lists[0]]
+    st["mismatched"] = len(bad)
+    # failing inputs first (they are what a maintainer needs), then bare correspondence breaks
+    pending = []
+    for i in range(len(traces)):
+        if i not in bad and po["ok"]:
+            continue
+        msg = trace_oracle(traces[i], obss[i])
+        rep = dict(case=dict(trace=traces[i]), observed=[{k: v for k, v in o.items() if k != "probe"} for o in obss[i]])
+        if msg:
+            st["failing_inputs"] += 1
+            if len(ctx.violations) < MAX_REPORTS:
+                C.report_violation(ctx, "C11 fails on the implementation (call sequence on one estimator): " + msg, rep, found_input=True)
+        elif i in bad:
+            pending.append((i, rep))
+    for i, rep in pending:
+        if len(ctx.violations) >= MAX_REPORTS:
+            break
+        rep["correspondence"] = "sof_trace_ok (Model/ScalerObj.v)"
+        ndiag = sum(1 for v in ctx.violations if v["what"].startswith("correspondence scaler object"))
+        rep["note"] = ("the estimator object and the state machine of Model/ScalerObj.v disagree (outcome of a call or a fitted "
+                       "attribute after it); " + (trace_diag(ctx, traces[i], obss[i]) if ndiag < 3 else "not diagnosed (see the first reports)"))
+        C.report_violation(ctx, "correspondence scaler object vs state-machine model broken", rep, found_input=False)
+    return st
+
 def run(ctx):
+    for k in REL:
+        REL[k] = 0
     po = C.proof_obligations(ctx.prop)
     ncases = 3000 if ctx.quick else 30000
     cases, recs = [], []
@@ -426,6 +793,7 @@ def run(ctx):
                 C.report_violation(ctx, "C11 fails on the implementation: " + msg,
                                    dict(case=c, observed=r), found_input=True)
     stats["relational_runs"] = stats["integer_weight_cases"] + stats["standardscaler_compared"]
+    stats["relational_second_fits"] = dict(REL)
     for i in mismatched:
         if i in reported or len(ctx.violations) >= MAX_REPORTS:
             continue
@@ -435,6 +803,24 @@ def run(ctx):
         C.report_violation(ctx, "correspondence Scaler model vs implementation broken", rep, found_input=False)
     for txt in corr_broken:
         C.report_violation(ctx, "correspondence shard did not evaluate", dict(coq_output=txt), found_input=False)
+    # shape bookkeeping of every fresh fit (what Model/ScalerObj.v [sof_fit] stores)
+    stats["structural_checked"] = 0
+    for i in range(len(cases)):
+        if recs[i]["raised"]:
+            continue
+        stats["structural_checked"] += 1
+        msg = structural(cases[i], recs[i])
+        if msg and i not in reported:
+            reported.add(i)
+            stats["structural_failures"] = stats.get("structural_failures", 0) + 1
+            if len(ctx.violations) < MAX_REPORTS:
+                C.report_violation(ctx, "bookkeeping of the fitted estimator differs from the object model (Model/ScalerObj.v): " + msg,
+                                   dict(case=cases[i], observed=recs[i], correspondence="sof_fit (Model/ScalerObj.v)",
+                                        note="the statistics agree with the model; the stored attributes / side effects do not"),
+                                   found_input=False)
+    # object traces against the state machine of Model/ScalerObj.v
+    tstats = run_traces(ctx, po)
+    stats["traces"] = tstats
     if not po["ok"]:
         C.report_violation(ctx, "proof obligations of Properties/C11.v not discharged",
                            dict(theorem_file="coq/Properties/C11.v", log=po["log"][-2000:],
@@ -455,7 +841,7 @@ def run(ctx):
                theorems=po["theorems"], axioms=po["axioms"],
                trusted_base=C.TRUSTED_BASE_COMMON + [
                    "binary64 comparison tolerance %g per column relative to the column magnitude (layer A: theorems are over real closed fields, floats are only compared)" % TOL,
-                   "numpy/sklearn input validation (_validate_data, _check_sample_weight) not modelled beyond the 2-sample minimum"],
+                   "numpy/sklearn input validation (_validate_data, _check_sample_weight, check_is_fitted) modelled only through its outcomes: the 2-sample minimum, NotFittedError before any fit, ValueError on a width other than n_features_in_"],
                evaluations=len(cases), distinct_nontrivial=nontrivial,
                rule="distinct (X, weights, flags, tolerances) with fit accepted, n >= 3 and centring or scaling on",
                traces_validated_against_impl=len(idx) - len(mismatched),
@@ -468,9 +854,20 @@ def run(ctx):
 
 def replay(ctx, obj):
     c = obj["case"]
+    if "trace" in c:
+        ob = run_trace_impl(c["trace"])
+        msg = trace_oracle(c["trace"], ob)
+        print("replay:", msg or "property holds on this call sequence now")
+        for op, o in zip(c["trace"]["ops"], ob):
+            print("  %-9s -> %s" % (op["op"], ["returned", "ValueError", "NotFittedError", "matrix"][o["kind"]]))
+        if not msg and not obj.get("failing_input_found", True):
+            print("(this replay recorded a model/implementation disagreement; rerun ./check C11 to re-evaluate it)")
+        return 1 if msg else 0
     r = run_impl(c)
     msg = oracle(c, r)
     print("replay:", msg or "property holds on this input now")
+    if structural(c, r):
+        print("bookkeeping differs from the object model:", structural(c, r))
     if not msg and not obj.get("failing_input_found", True):
         print("(this replay recorded a model/implementation disagreement; rerun ./check C11 to re-evaluate it)")
     return 1 if msg else 0
